@@ -896,3 +896,325 @@ Proof.
   exists (exec_seq empty_heap (firstn 5 demo_ops)). eexists. eexists.
   split; [apply wf_reachable|]. split; vm_compute; reflexivity.
 Qed.
+
+(* ================================================================== strong well-formedness (windows in bounds) and full-strength view theorems *)
+(* strong well-formedness: every bound array's window lies inside its (allocated) buffer *)
+Definition inb (bs : list (list cell)) (a : arr) : Prop :=
+  a_buf a < length bs /\ a_off a + size (a_shape a) <= length (nth (a_buf a) bs []).
+Definition wfsv (bs : list (list cell)) (v : value) : Prop := Forall (inb bs) (leaves v).
+Definition wfs (h : heap) : Prop := forall n v, lookup n (env h) = Some v -> wfsv (bufs h) v.
+
+Lemma inb_app : forall bs extra a, inb bs a -> inb (bs ++ extra) a.
+Proof. unfold inb. intros bs extra a [H1 H2]. rewrite app_length, app_nth1 by auto. split; lia. Qed.
+Lemma wfsv_app : forall bs extra v, wfsv bs v -> wfsv (bs ++ extra) v.
+Proof. unfold wfsv. intros. eapply Forall_impl; [|eauto]. intros. apply inb_app. auto. Qed.
+Lemma inb_fresh : forall bs extra o k dt sh i, i < length extra -> length (nth i extra []) = size sh ->
+  inb (bs ++ extra) (mkArr o k dt sh (length bs + i) 0).
+Proof.
+  unfold inb. intros. simpl. rewrite app_length, app_nth2 by lia.
+  replace (length bs + i - length bs) with i by lia. split; lia.
+Qed.
+Lemma read_arr_length : forall bs a, inb bs a -> length (read_arr bs a) = size (a_shape a).
+Proof. intros bs a [H1 H2]. unfold read_arr. rewrite read_buf_length. lia. Qed.
+
+Lemma wfs_ok_bind : forall h extra d v k, wfs h -> wfsv (bufs h ++ extra) v -> wfs (fst (ok_bind h extra d v k)).
+Proof.
+  intros h extra d v k W Hv n v' Hl.
+  change (lookup n (bind d v (env h)) = Some v') in Hl.
+  change (wfsv (bufs h ++ extra) v').
+  destruct (Nat.eq_dec n d) as [->|N].
+  - rewrite lookup_bind_same in Hl. inversion Hl; subst. auto.
+  - rewrite lookup_bind_other in Hl by auto. apply wfsv_app. eapply W; eauto.
+Qed.
+Lemma wfs_fail : forall h e, wfs h -> wfs (fst (fail h e)).
+Proof. auto. Qed.
+Lemma wfs_empty : wfs empty_heap.
+Proof. intros n v H. simpl in H. discriminate. Qed.
+
+Definition wfsp (bs : list (list cell)) (p : opval) : Prop := match p with PVal v => wfsv bs v | _ => True end.
+Lemma eval_operand_wfs : forall h o p, wfs h -> eval_operand h o = Some p -> wfsp (bufs h) p.
+Proof.
+  intros h o p W E. destruct o; simpl in E.
+  - destruct (lookup n (env h)) eqn:L; simpl in E; inversion E; subst. simpl. eapply W; eauto.
+  - inversion E; subst; simpl; auto.
+  - inversion E; subst; simpl; auto.
+Qed.
+
+(* a ufunc argument whose cell list has the length of its shape *)
+Definition uf_ok (u : ufarg) : Prop := length (u_cells u) = size (u_shape u).
+Lemma as_ufarg_ok : forall bs p u, wfsp bs p -> as_ufarg bs p = Some u -> uf_ok u.
+Proof.
+  intros bs p u W E. destruct p as [[a| | | ]|t c|dt sh cs]; simpl in E; try discriminate.
+  - inversion E; subst. unfold uf_ok. simpl. apply read_arr_length. simpl in W. inversion W; auto.
+  - inversion E; subst. reflexivity.
+  - destruct (length cs =? size sh) eqn:L; inversion E; subst. apply Nat.eqb_eq in L. auto.
+Qed.
+Lemma ufunc_compute_length : forall f args c s cells, Forall uf_ok args -> ufunc_compute f args = Some (c, s, cells) ->
+  length cells = size s.
+Proof.
+  intros f args c s cells F H. unfold ufunc_compute in H.
+  destruct args as [|x [|y [|z t]]]; try discriminate.
+  - destruct (arity f =? 1); inversion H; subst. rewrite map_length. inversion F; auto.
+  - destruct (arity f =? 2); [|discriminate]. destruct (bshape (u_shape x) (u_shape y)); inversion H; subst.
+    rewrite map_length, combine_length, !bcast_cells_length. lia.
+Qed.
+Lemma somes_ok : forall bs ps, Forall (wfsp bs) ps -> Forall uf_ok (somes (map (as_ufarg bs) ps)).
+Proof.
+  induction ps as [|p ps IH]; intros F; unfold somes in *; simpl; [constructor|].
+  inversion F; subst. apply Forall_app. split; auto.
+  destruct (as_ufarg bs p) eqn:E; [|constructor]. constructor; [|constructor]. eapply as_ufarg_ok; eauto.
+Qed.
+Lemma ufunc_value_length : forall bs f a o k dt s cells, Forall (wfsp bs) a ->
+  ufunc_value bs f a o = inr (k, dt, s, cells) -> length cells = size s.
+Proof.
+  intros bs f a o k dt s cells F H. unfold ufunc_value in H.
+  repeat match type of H with
+         | context [match ?x with _ => _ end] => destruct x eqn:?
+         | context [if ?x then _ else _] => destruct x eqn:?
+         end; try discriminate.
+  inversion H; subst. eapply ufunc_compute_length; [|eauto]. apply (somes_ok bs a F).
+Qed.
+Lemma do_ufunc_wfs : forall h d f a o, wfs h -> Forall (wfsp (bufs h)) a -> wfs (fst (do_ufunc h d f a o)).
+Proof.
+  intros h d f a o W F. unfold do_ufunc.
+  destruct (ufunc_value (bufs h) f a o) as [e|[[[k dt] s] cells]] eqn:E; [apply wfs_fail; auto|].
+  apply wfs_ok_bind; auto. unfold wfsv, leaves, fresh_arr. constructor; [|constructor].
+  rewrite !Nat.add_0_r. replace (length (bufs h)) with (length (bufs h) + 0) at 1 by lia.
+  apply inb_fresh; simpl; auto. eapply ufunc_value_length; eauto.
+Qed.
+
+Lemma inb_fresh_i : forall h extra o k dt sh i, i < length extra -> length (nth i extra []) = size sh ->
+  inb (bufs h ++ extra) (mkArr o k dt sh (length (bufs h) + i) 0).
+Proof. intros. apply inb_fresh; auto. Qed.
+
+Ltac fresh_tac :=
+  unfold fresh_arr; apply inb_fresh_i; simpl; try lia; auto.
+
+Lemma part_result_wfs : forall h d p v q m e1 e2, wfs h -> inb (bufs h) q -> inb (bufs h) m ->
+  wfs (fst (part_result h d p v q m e1 e2)).
+Proof.
+  intros. unfold part_result.
+  repeat dmatch; try (apply wfs_fail; auto).
+  apply wfs_ok_bind; auto. unfold wfsv, leaves.
+  repeat constructor; try (apply inb_app; assumption);
+    fresh_tac; eapply assign_cells_length; eauto.
+Qed.
+Lemma fld_result_wfs : forall h d e g e1 e2, wfs h -> wfs (fst (fld_result h d e g e1 e2)).
+Proof.
+  intros. unfold fld_result.
+  repeat dmatch; try (apply wfs_fail; auto).
+  apply wfs_ok_bind; auto. unfold wfsv, leaves.
+  repeat constructor; fresh_tac; eapply assign_cells_length; eauto.
+Qed.
+Lemma Forall_two : forall A (P : A -> Prop) x y, P x -> P y -> Forall P [x; y].
+Proof. intros. constructor; auto. Qed.
+Lemma Forall_one : forall A (P : A -> Prop) x, P x -> Forall P [x].
+Proof. intros. constructor; auto. Qed.
+Lemma do_bin_wfs : forall h d f x y, wfs h -> wfsp (bufs h) x -> wfsp (bufs h) y -> wfs (fst (do_bin h d f x y)).
+Proof.
+  intros h d f x y W Hx Hy. unfold do_bin.
+  repeat (first [apply fld_result_wfs; assumption | apply wfs_fail; assumption
+                 | apply do_ufunc_wfs; [assumption | apply Forall_two; first [assumption | exact I]]
+                 | apply part_result_wfs; [assumption | simpl in Hx, Hy; unfold wfsv, leaves in *;
+                       repeat match goal with H : Forall _ (_ :: _) |- _ => inversion H; clear H; subst end; assumption ..]
+                 | dmatch]).
+Qed.
+
+Lemma eval_args_wfs : forall h args pa, wfs h ->
+  fold_right (fun o acc => match eval_operand h o, acc with Some p, Some l => Some (p :: l) | _, _ => None end) (Some []) args = Some pa ->
+  Forall (wfsp (bufs h)) pa.
+Proof.
+  induction args as [|o args IH]; simpl; intros pa W H.
+  - inversion H. constructor.
+  - destruct (eval_operand h o) eqn:E; [|discriminate].
+    destruct (fold_right _ _ args) eqn:F; [|discriminate]. inversion H; subst.
+    constructor; [eapply eval_operand_wfs; eauto|]. apply IH; auto.
+Qed.
+
+Lemma inb_write : forall bs b off new a, inb bs a -> inb (write_buf bs b off new) a.
+Proof.
+  unfold inb. intros bs b off new a [H1 H2]. rewrite write_buf_length. split; auto.
+  destruct (Nat.eq_dec (a_buf a) b) as [E|N].
+  - rewrite E. rewrite write_buf_same_length. rewrite <- E. auto.
+  - rewrite write_buf_other; auto.
+Qed.
+
+Lemma select_inb : forall bs a s sh off, inb bs a -> select a s = inr (RegArr sh off) ->
+  forall o k dt, inb bs (mkArr o k dt sh (a_buf a) off).
+Proof.
+  intros bs a s sh off [H1 H2] S o k dt. unfold select in S.
+  destruct (a_shape a) as [|n t] eqn:Sh; [discriminate|].
+  change (size (n :: t)) with (n * size t) in H2.
+  unfold inb. cbn [a_buf a_off a_shape]. split; auto.
+  destruct s as [|lo hi|i].
+  - inversion S; subst. exact H2.
+  - inversion S; subst. change (size ((Nat.min hi n - Nat.min lo n) :: t)) with ((Nat.min hi n - Nat.min lo n) * size t).
+    set (sz := size t) in *. clearbody sz.
+    assert (Nat.min lo n * sz + (Nat.min hi n - Nat.min lo n) * sz <= n * sz).
+    { rewrite <- Nat.mul_add_distr_r. apply Nat.mul_le_mono_r. lia. }
+    lia.
+  - destruct (i <? n) eqn:L; [|discriminate]. apply Nat.ltb_lt in L.
+    destruct t as [|m t']; inversion S; subst.
+    change (m * size t') with (size (m :: t')) in *.
+    set (sz := size (m :: t')) in *. clearbody sz.
+    assert (i * sz + sz <= n * sz) by (replace (i * sz + sz) with ((i + 1) * sz) by lia; apply Nat.mul_le_mono_r; lia).
+    lia.
+Qed.
+
+Ltac leaves_tac := unfold wfsv, leaves; repeat (apply Forall_cons || apply Forall_nil).
+Ltac len_tac :=
+  simpl; try rewrite !repeat_length; try lia;
+  try (apply read_arr_length; assumption);
+  try (rewrite read_arr_length by assumption; reflexivity).
+
+Lemma exec_wfs : forall h o, wfs h -> wfs (fst (exec h o)).
+Proof.
+  intros h o W.
+  assert (INV : forall n v, lookup n (env h) = Some v -> Forall (inb (bufs h)) (leaves v)) by (intros; eapply W; eauto).
+  destruct o; unfold exec.
+  - (* ONew *) dmatch; [|apply wfs_fail; auto]. apply wfs_ok_bind; auto. leaves_tac. fresh_tac; len_tac.
+  - (* ONewPart *) apply wfs_ok_bind; auto. leaves_tac; fresh_tac; len_tac.
+  - (* ONewFld *) apply wfs_ok_bind; auto. leaves_tac; fresh_tac; len_tac.
+  - (* OCopy *)
+    destruct (lookup s (env h)) as [v|] eqn:L; [|apply wfs_fail; auto].
+    apply INV in L.
+    destruct k as [k| | ]; destruct v as [a|o p v q m|o e g|t c]; unfold leaves in L;
+      repeat match goal with H : Forall _ (_ :: _) |- _ => inversion H; clear H; subst end;
+      repeat dmatch; try (apply wfs_fail; auto; fail);
+      apply wfs_ok_bind; auto; leaves_tac; fresh_tac; len_tac.
+  - (* OAssign *)
+    destruct (lookup s (env h)) as [v|] eqn:L; [|apply wfs_fail; auto].
+    apply wfs_ok_bind; auto. apply wfsv_app. eapply W; eauto.
+  - (* OUfunc *)
+    destruct (fold_right _ _ args) as [pa|] eqn:F; [|repeat dmatch; apply wfs_fail; auto].
+    repeat dmatch; try (apply wfs_fail; auto; fail); apply do_ufunc_wfs; auto; eapply eval_args_wfs; eauto.
+  - (* OBin *)
+    destruct (eval_operand h x) eqn:Ex; [|apply wfs_fail; auto].
+    destruct (eval_operand h y) eqn:Ey; [|apply wfs_fail; auto].
+    apply do_bin_wfs; auto; eapply eval_operand_wfs; eauto.
+  - (* OUn *)
+    destruct (eval_operand h x) as [p|] eqn:Ex; [|apply wfs_fail; auto].
+    pose proof (eval_operand_wfs _ _ _ W Ex) as Hp.
+    repeat dmatch; try (apply wfs_fail; auto; fail).
+    apply do_ufunc_wfs; auto; try (apply Forall_one; subst; exact Hp).
+  - (* OIop *)
+    destruct (lookup d (env h)) as [v|] eqn:L; [|repeat dmatch; apply wfs_fail; auto].
+    destruct (eval_operand h y) as [py|] eqn:Ey; [|repeat dmatch; apply wfs_fail; auto].
+    pose proof (eval_operand_wfs _ _ _ W Ey) as Hp.
+    assert (Hv : wfsv (bufs h) v) by (eapply W; eauto).
+    destruct v as [a|o p v q m|o e g|t c].
+    + repeat dmatch; try (apply wfs_fail; auto; fail); apply do_ufunc_wfs; auto; apply Forall_two; subst; auto; exact I.
+    + apply do_bin_wfs; auto.
+    + apply do_bin_wfs; auto.
+    + apply wfs_fail; auto.
+  - (* OSet *)
+    repeat dmatch; try (apply wfs_fail; auto; fail);
+      intros n0 v0 Hl; cbn [fst env bufs] in *; specialize (W _ _ Hl); unfold wfsv in *; rewrite Forall_forall in *;
+      intros a0 Ha0; apply inb_write; auto.
+  - (* OGet *)
+    destruct (lookup s (env h)) as [v|] eqn:L; [|apply wfs_fail; auto].
+    pose proof (INV _ _ L) as I.
+    destruct v as [a|o p v q m|o e g|t c]; try (apply wfs_fail; auto; fail).
+    unfold leaves in I. inversion I; subst.
+    destruct (select a sl) as [e|[sh off|off]] eqn:S; try (apply wfs_fail; auto; fail).
+    + apply wfs_ok_bind; auto. leaves_tac. rewrite app_nil_r. eapply select_inb; eauto.
+    + apply wfs_ok_bind; auto. leaves_tac.
+  - (* OComp *)
+    destruct (lookup s (env h)) as [v|] eqn:L; [|apply wfs_fail; auto].
+    pose proof (INV _ _ L) as I.
+    destruct v as [a|o p v q m|o e g|t cc]; unfold leaves in I;
+      repeat match goal with H : Forall _ (_ :: _) |- _ => inversion H; clear H; subst end.
+    + destruct (is_multi (a_kind a) && (c <? 2)) eqn:M; [|apply wfs_fail; auto].
+      apply andb_true_iff in M. destruct M as [_ Hc]. apply Nat.ltb_lt in Hc.
+      destruct (a_shape a) as [|n t] eqn:Sh; [apply wfs_fail; auto|].
+      destruct n as [|[|[|n]]]; try (apply wfs_fail; auto; fail).
+      destruct t as [|m t]; [apply wfs_fail; auto|].
+      apply wfs_ok_bind; auto. leaves_tac. rewrite app_nil_r.
+      match goal with H : inb _ a |- _ => destruct H as [B1 B2] end.
+      rewrite Sh in B2. change (size (2 :: m :: t)) with (2 * size (m :: t)) in B2.
+      unfold inb. cbn [a_buf a_off a_shape tl]. split; auto.
+      set (sz := size (m :: t)) in *. clearbody sz.
+      assert (c * sz + sz <= 2 * sz) by (replace (c * sz + sz) with ((c + 1) * sz) by lia; apply Nat.mul_le_mono_r; lia).
+      lia.
+    + destruct c as [|[|[|[|c]]]]; try (apply wfs_fail; auto; fail);
+        apply wfs_ok_bind; auto; leaves_tac; rewrite app_nil_r; assumption.
+    + destruct c as [|[|c]]; try (apply wfs_fail; auto; fail);
+        apply wfs_ok_bind; auto; leaves_tac; rewrite app_nil_r; assumption.
+    + apply wfs_fail; auto.
+  - (* OAbs *)
+    repeat dmatch; try (apply wfs_fail; auto; fail); apply wfs_ok_bind; auto; leaves_tac.
+  - (* OMethCopy *)
+    destruct (lookup s (env h)) as [v|] eqn:L; [|apply wfs_fail; auto].
+    pose proof (INV _ _ L) as I.
+    destruct v as [a|o p v q m|o e g|t c]; try (apply wfs_fail; auto; fail).
+    unfold leaves in I. inversion I; subst.
+    apply wfs_ok_bind; auto. leaves_tac. fresh_tac; len_tac.
+  - (* OSum *)
+    repeat dmatch; try (apply wfs_fail; auto; fail); apply wfs_ok_bind; auto; leaves_tac.
+  - (* OSum0 *)
+    repeat dmatch; try (apply wfs_fail; auto; fail).
+    apply wfs_ok_bind; auto. leaves_tac. fresh_tac. simpl. rewrite map_length, seq_length. reflexivity.
+  - (* ODel *)
+    destruct (lookup d (env h)) eqn:L; [|apply wfs_fail; auto].
+    intros n0 v0 Hl. cbn [fst env bufs] in *. destruct (Nat.eq_dec n0 d) as [->|N].
+    + rewrite lookup_remove_same in Hl. discriminate.
+    + rewrite lookup_remove_other in Hl by auto. eapply W; eauto.
+Qed.
+
+Lemma exec_seq_wfs : forall ops h, wfs h -> wfs (exec_seq h ops).
+Proof. induction ops; simpl; intros; auto. apply IHops. apply exec_wfs. auto. Qed.
+Theorem wfs_reachable : forall ops, wfs (exec_seq empty_heap ops).
+Proof. intros. apply exec_seq_wfs. apply wfs_empty. Qed.
+
+(* full strength: on a heap with in-bounds windows (every reachable heap) a successful `d[:] = src`
+   is read back through d *)
+Theorem setitem_reads_back_wfs : forall h d src h' a cells, wfs h -> exec h (OSet d SAll src) = (h', ROk) ->
+  lookup d (env h) = Some (VArr a) ->
+  (exists ps u, eval_operand h src = Some ps /\ as_ufarg (bufs h) ps = Some u /\
+     assign_cells (a_dt a) (a_shape a) (u_cplx u) (u_shape u) (u_cells u) = Some cells) ->
+  read_arr (bufs h') a = cells.
+Proof.
+  intros h d src h' a cells W H L E.
+  assert (I : inb (bufs h) a).
+  { specialize (W _ _ L). unfold wfsv, leaves in W. inversion W; auto. }
+  destruct I as [_ I2].
+  eapply setitem_reads_back; eauto.
+  intro Sh. unfold exec in H. rewrite L in H. destruct E as (ps & u & E1 & _). rewrite E1 in H.
+  unfold select in H. rewrite Sh in H. unfold fail in H. inversion H.
+Qed.
+
+(* a write through a component view is seen in the parent: afterwards the parent's component IS the written data *)
+Theorem component_write_seen_in_parent : forall h c p i h1 ap ac src h2 cells, wfs h ->
+  exec h (OComp c p i) = (h1, ROk) -> lookup p (env h) = Some (VArr ap) -> c <> p ->
+  lookup c (env h1) = Some (VArr ac) ->
+  exec h1 (OSet c SAll src) = (h2, ROk) ->
+  (exists ps u, eval_operand h1 src = Some ps /\ as_ufarg (bufs h1) ps = Some u /\
+     assign_cells (a_dt ac) (a_shape ac) (u_cplx u) (u_shape u) (u_cells u) = Some cells) ->
+  firstn (size (a_shape ac)) (skipn (i * size (a_shape ac)) (read_arr (bufs h2) ap)) = cells.
+Proof.
+  intros h c p i h1 ap ac src h2 cells W H L N Lc H2 E.
+  assert (W1 : wfs h1). { replace h1 with (fst (exec h (OComp c p i))) by (rewrite H; auto). apply exec_wfs. auto. }
+  pose proof (setitem_reads_back_wfs _ _ _ _ _ _ W1 H2 Lc E) as R.
+  destruct (component_view_tracks_parent [OSet c SAll src] h c p i h1 ap ac H L N Lc) as (_ & _ & T).
+  { intros o [<-|[]]. left. reflexivity. }
+  unfold exec_seq in T. cbn [fold_left] in T. rewrite H2 in T. cbn [fst] in T. rewrite <- T. exact R.
+Qed.
+
+(* and vice versa: a write through the parent is seen through the view *)
+Theorem parent_write_seen_in_component : forall h c p i h1 ap ac src h2 cells, wfs h ->
+  exec h (OComp c p i) = (h1, ROk) -> lookup p (env h) = Some (VArr ap) -> c <> p ->
+  lookup c (env h1) = Some (VArr ac) ->
+  exec h1 (OSet p SAll src) = (h2, ROk) ->
+  (exists ps u, eval_operand h1 src = Some ps /\ as_ufarg (bufs h1) ps = Some u /\
+     assign_cells (a_dt ap) (a_shape ap) (u_cplx u) (u_shape u) (u_cells u) = Some cells) ->
+  read_arr (bufs h2) ac = firstn (size (a_shape ac)) (skipn (i * size (a_shape ac)) cells).
+Proof.
+  intros h c p i h1 ap ac src h2 cells W H L N Lc H2 E.
+  assert (W1 : wfs h1). { replace h1 with (fst (exec h (OComp c p i))) by (rewrite H; auto). apply exec_wfs. auto. }
+  assert (Lp : lookup p (env h1) = Some (VArr ap)).
+  { destruct (exec_Ext h (OComp c p i) eq_refl) as (_ & _ & X). rewrite H in X. simpl in X. rewrite X; auto. }
+  pose proof (setitem_reads_back_wfs _ _ _ _ _ _ W1 H2 Lp E) as R.
+  destruct (component_view_tracks_parent [OSet p SAll src] h c p i h1 ap ac H L N Lc) as (_ & _ & T).
+  { intros o [<-|[]]. left. reflexivity. }
+  unfold exec_seq in T. cbn [fold_left] in T. rewrite H2 in T. cbn [fst] in T. rewrite T, R. reflexivity.
+Qed.
